@@ -144,6 +144,9 @@ func FuzzDecoders(f *testing.F) {
 		judgeChain(&v, data)
 		judgePrechain(&v, data)
 		judgeList(&v, data)
+		if len(data) <= 70000 {
+			judgeCertList(&v, data, int(split))
+		}
 		k := int(split) % (len(data) + 1)
 		judgeRawEntry(&v, data[:k], data[k:], int64(split))
 		var msgs []string
